@@ -312,8 +312,34 @@ package unmarshal
 //@   requires len(z.key) <= cap(z.key) && len(z.val) <= cap(z.val)
 //@ func (*zipkinNDDecoderV2).Decode [C06]
 
-//@ func (*OTLPDecoder).initAttributesMap
+// Flattening attributes into tag rows: the key of a nested value is the whole
+// path (outer keys joined by "."), a list element is flattened as the value it
+// holds (the AnyValue wrapper itself matches no value kind and would be dropped).
+//@ func (*OTLPDecoder).initAttributesMap [C06]
 //@   modifies mapof(*res)
+//@   at writeAttrValue same-prefix: arg2 == prefix
+//@   loop 1:
+//@     modifies mapof(*res)
+//@ func (*OTLPDecoder).writeAttrValue [C06]
+//@   flag checks=-assert
+//@   modifies mapof(*res)
+//@   at initAttributesMap nested-map-keeps-path: arg1 == prefix + key + "."
+//@   at writeAttrValue list-element-keeps-path: arg2 == prefix + key + "."
+//@   at writeAttrValue list-element-is-its-value: !typeis(arg1, "*go.opentelemetry.io/proto/otlp/common/v1.AnyValue")
+//@   loop 1:
+//@     modifies mapof(*res)
+//@   replay:
+//@     import v11 "go.opentelemetry.io/proto/otlp/common/v1"
+//@     go: res := map[string]string{}
+//@     go: list := &v11.AnyValue_ArrayValue{ArrayValue: &v11.ArrayValue{Values: []*v11.AnyValue{{Value: &v11.AnyValue_StringValue{StringValue: "a"}}, {Value: &v11.AnyValue_StringValue{StringValue: "b"}}}}}
+//@     go: (&OTLPDecoder{}).writeAttrValue("k", list, "", &res)
+//@     go: if res["k.0"] != "a" || res["k.1"] != "b" { confirm("a list-valued attribute k = [a, b] is flattened to " + fmt.Sprint(res) + ": its elements get no tag rows") }
+//@     go: res = map[string]string{}
+//@     go: inner := &v11.AnyValue_KvlistValue{KvlistValue: &v11.KeyValueList{Values: []*v11.KeyValue{{Key: "m", Value: &v11.AnyValue{Value: &v11.AnyValue_StringValue{StringValue: "v"}}}}}}
+//@     go: outer := &v11.AnyValue_KvlistValue{KvlistValue: &v11.KeyValueList{Values: []*v11.KeyValue{{Key: "in", Value: &v11.AnyValue{Value: inner}}}}}
+//@     go: (&OTLPDecoder{}).writeAttrValue("out", outer, "", &res)
+//@     go: if res["out.in.m"] != "v" { confirm("a nested map attribute out.in.m is flattened to " + fmt.Sprint(res)) }
+//@   end
 //@ func populateServiceNames
 //@   modifies span.Attributes
 //@ func (*OTLPDecoder).Decode [C05,C06]
